@@ -174,7 +174,7 @@ class ProgGen:
         t = self.t
         opts = [("int", 3), ("double", 3), ("bool", 1), ("size_t", 1), ("string", 2), ("Vector", 2),
                 ("Matrix", 1), ("Point2", 0.7), ("Point3", 0.7)]
-        klasses = self.p.classes
+        klasses = [k for k in self.p.classes if getattr(k, "tpl", None) is None]   # instantiations are not named as types
         if allow_class and klasses:
             opts.append(("<class>", 5))
         enums = self.usable_enums(cls)
@@ -198,7 +198,8 @@ class ProgGen:
                 ("Matrix", 1), ("Point2", 0.5), ("Point3", 0.5)]
         if allow_void:
             opts.insert(0, ("void", 4))
-        if self.p.classes:
+        plain = [k for k in self.p.classes if getattr(k, "tpl", None) is None]
+        if plain:
             opts.append(("<class>", 5))
         enums = self.usable_enums(cls)
         if enums:
@@ -207,7 +208,7 @@ class ProgGen:
         if k == "void":
             return PType("prim", "void")
         if k == "<class>":
-            c = t.pick(self.p.classes, "ret-class")
+            c = t.pick(plain, "ret-class")
             return PType("class", c.qname, t.wpick([("val", 2), ("sptr", 3)], "ret-mode"))
         if k == "<enum>":
             return PType("enum", t.pick(enums, "ret-enum").qname)
@@ -270,7 +271,8 @@ class ProgGen:
         c = PClass(self.fresh(CLASSN), ns)
         if self.f.get("inheritance", True) and t.bool(0.45, "virtual"):
             c.virtual = True
-            bases = [k for k in self.p.classes if k.virtual and len(self.p.ancestors(k)) < 2]
+            bases = [k for k in self.p.classes if k.virtual and len(self.p.ancestors(k)) < 2
+                     and getattr(k, "tpl", None) is None]
             if bases and t.bool(0.65, "derive"):
                 c.parent = t.pick(bases, "base").qname
         self.p.classes.append(c)        # a class may refer to itself in its own signatures
@@ -289,19 +291,32 @@ class ProgGen:
                 continue
             sigs.add(key)
             c.ctors.append(PFunc("ctor", c.name, None, a))
+        seen = set()
+
+        def fresh_sig(f):
+            # C++ cannot overload on the return type (nor, for the MATLAB guards' sake, on constness alone)
+            key = (f.name, tuple(a.ty.cpp() for a in f.args))
+            if key in seen:
+                return False
+            seen.add(key)
+            return True
         for _ in range(t.small(4, "nmeth", p=0.7)):
-            c.methods.append(PFunc("method", t.pick(METHN, "mname"), self.gen_ret(cls=c), self.args(3, cls=c),
-                                   const=t.bool(0.5, "const")))
+            f = PFunc("method", t.pick(METHN, "mname"), self.gen_ret(cls=c), self.args(3, cls=c),
+                      const=t.bool(0.5, "const"))
+            if fresh_sig(f):
+                c.methods.append(f)
         for _ in range(t.small(2, "nstatic", p=0.4)):
-            c.statics.append(PFunc("static", t.pick(STATN, "sname"), self.gen_ret(allow_void=False, cls=c),
-                                   self.args(2, cls=c)))
+            f = PFunc("static", t.pick(STATN, "sname"), self.gen_ret(allow_void=False, cls=c), self.args(2, cls=c))
+            if fresh_sig(f):
+                c.statics.append(f)
         if self.f.get("props", True):
             for _ in range(t.small(2, "nprop", p=0.4)):
                 # property names are unique per program: MATLAB forbids redefining an inherited property
                 pn = self.fresh(PROPN)
                 popts = [(PType("prim", "int"), 2), (PType("prim", "double"), 2), (PType("prim", "string"), 1),
                          (PType("eig", "Vector"), 1), (PType("prim", "bool"), 1)]
-                others = [k for k in self.p.classes if k is not c and k.ctors and not k.parent]
+                others = [k for k in self.p.classes if k is not c and k.ctors and not k.parent
+                          and getattr(k, "tpl", None) is None]
                 if others and self.f.get("class_props", True):
                     popts.append((PType("class", t.pick(others, "prop-class").qname, "val"), 1.5))
                 pt = t.wpick(popts, "ptype")
@@ -326,7 +341,8 @@ class ProgGen:
                 p.functions.append((ns, f))
                 if t.bool(0.3, "func-overload"):
                     g = PFunc("func", name, self.gen_ret(), self.args(3))
-                    if _guard_sig(g) != _guard_sig(f):
+                    if _guard_sig(g) != _guard_sig(f) and \
+                            tuple(a.ty.cpp() for a in g.args) != tuple(a.ty.cpp() for a in f.args):
                         p.functions.append((ns, g))
             elif self.f.get("enums", True):
                 ename = self.fresh(["Color", "Status", "Level"])
@@ -334,6 +350,7 @@ class ProgGen:
                                                  t.shuffle(["Low", "Mid", "High", "Off"], "evals")[:2 + t.choose(2, "nvals")]]))
         for feat in self.f.get("force", ()):
             getattr(self, "force_" + feat)()
+        _dedupe_signatures(p)
         _assign_entities(p)
         return p
 
@@ -472,6 +489,30 @@ def _mclass(ty):
 
 def _guard_sig(f):
     return tuple((a.ty.kind, a.ty.name) for a in f.args)
+
+
+def _dedupe_signatures(p):
+    """C++ cannot overload on return type or constness alone: keep the first of each (name, parameter types)"""
+    def uniq(funcs):
+        seen, out = set(), []
+        for f in funcs:
+            key = (f.name, tuple(a.ty.cpp() for a in f.args))
+            if key not in seen:
+                seen.add(key)
+                out.append(f)
+        return out
+    for c in list(p.classes) + list(p.templates):
+        c.ctors[:] = uniq(c.ctors)
+        both = uniq(c.methods + c.statics)      # a static and a method may not share a signature either
+        c.methods[:] = [f for f in both if f.kind == "method"]
+        c.statics[:] = [f for f in both if f.kind == "static"]
+    seen, out = set(), []
+    for ns, f in p.functions:
+        key = (tuple(ns), f.name, tuple(a.ty.cpp() for a in f.args))
+        if key not in seen:
+            seen.add(key)
+            out.append((ns, f))
+    p.functions[:] = out
 
 
 def _assign_entities(p):
